@@ -73,6 +73,7 @@ struct Config {
   int max_violations = 8;   // distinct violation signatures to keep
   bool stop_on_violation = false;
   uint64_t max_execs = ~0ULL;
+  double hang_cpu_s = 10;   // CPU seconds without a scheduling point before an execution counts as hung
   int max_abandoned = 400;  // stuck executions (deadlock/crash) tolerated before the search of a program stops
 };
 
